@@ -22,10 +22,17 @@ enum Shape {
   FlatMap,
   ObserveOn,
   Interval,
+  /// a rude producer thread below one operator with state of its own (index into RUDE_OPS)
+  RudeOp(usize),
 }
 
+const RUDE_OPS: [&str; 12] = ["scan", "buffer_with_count(2)", "window_with_count(2).flat_map", "group_by.flat_map", "distinct_until_changed", "start_with", "skip(1)", "materialize.dematerialize", "take_while", "tap", "ref_count", "replay"];
+
 fn unsub_scn(shape: Shape, q: Option<u32>, t: Option<u32>) -> Scn {
-  let name = format!("c05/{:?} P(1,2,3) || unsubscribe", shape);
+  let name = match shape {
+    Shape::RudeOp(k) => format!("c05/Rude.{} P(1,2,3) || unsubscribe", RUDE_OPS[k]),
+    _ => format!("c05/{:?} P(1,2,3) || unsubscribe", shape),
+  };
   let mut sc = scn(&name, "unsubscribe-vs-emitting-thread", q, t, move || {
     let rec = Rec::new();
     let causes = Causes::new();
@@ -43,6 +50,20 @@ fn unsub_scn(shape: Shape, q: Option<u32>, t: Option<u32>) -> Scn {
         Shape::RudeDirect => ra(),
         Shape::RudeMap => ra().map(|x| x),
         Shape::RudeMerge => ra().merge(&[rb()]),
+        Shape::RudeOp(k) => match RUDE_OPS[k] {
+          "scan" => ra().scan(|(a, b)| a + b),
+          "buffer_with_count(2)" => ra().buffer_with_count(2).map(|v| v.iter().sum()),
+          "window_with_count(2).flat_map" => ra().window_with_count(2).flat_map(|w| w),
+          "group_by.flat_map" => ra().group_by(|x| x % 2).flat_map(|g| g),
+          "distinct_until_changed" => ra().distinct_until_changed(),
+          "start_with" => ra().start_with([9i64].into_iter()),
+          "skip(1)" => ra().skip(1),
+          "materialize.dematerialize" => ra().materialize().dematerialize(),
+          "take_while" => ra().take_while(|x| x < 3),
+          "tap" => ra().tap(|_| {}, |_| {}, || {}),
+          "ref_count" => ra().ref_count().observable(),
+          _ => ra().replay().observable(),
+        },
         Shape::Direct => a(),
         Shape::Map => a().map(|x| x),
         Shape::MapFilterTake => a().map(|x| x).filter(|_| true).take(5),
@@ -133,4 +154,7 @@ pub fn scenarios() -> Vec<Scn> {
     unsub_scn(Shape::ObserveOn, Some(1), Some(2)),
     unsub_scn(Shape::Interval, Some(2), Some(3)),
   ]
+  .into_iter()
+  .chain((0..RUDE_OPS.len()).map(|k| unsub_scn(Shape::RudeOp(k), Some(1), Some(2))))
+  .collect()
 }
